@@ -471,7 +471,7 @@ def run(ctx, out):
     c3_exhaustive(out, model, 5 if thorough else 4, stats)
 
     hists = [(h, 'systematic') for h in systematic()]
-    nrand = 12000 if thorough else 1500
+    nrand = 40000 if thorough else 4000
     for _ in range(nrand):
         g = Gen(ctx.rng, 5, ctx.rng.randint(4, 16 if thorough else 10))
         hists.append((g.history(), 'random'))
